@@ -1416,7 +1416,19 @@ impl<'l> CelCompiler<'l> {
                             let mut comp = CelCompiler::with_tokenizer(&mut tok);
                             comp.nesting_depth = self.nesting_depth;
 
-                            let (e, _) = comp.parse_expression()?;
+                            // the embedded expression is scanned on its own, so the
+                            // location of an error in it is relative to the hole:
+                            // report the f-string instead
+                            let (e, _) = comp.parse_expression().map_err(|err| match err {
+                                CelError::Syntax(s) => CelError::Syntax(
+                                    SyntaxError::from_location(loc.start()).with_message(format!(
+                                        "{} in f-string expression '{}'",
+                                        s.message().unwrap_or("SYNTAX ERROR"),
+                                        e
+                                    )),
+                                ),
+                                other => other,
+                            })?;
                             fstring_details.union_from(e.details().clone());
 
                             bytecode.push(
